@@ -495,6 +495,17 @@ type Clause struct {
 	AtN  int    // which of the matching returns (0 = all)
 }
 
+// AtomicSpec is a rely/guarantee pair for one shared cell accessed through
+// sync/atomic. Rely speaks about "v" (a value read); Guarantee about "cur" and
+// "new"; AddAssume is an ASSUMED (unchecked, reported) condition on the value an
+// atomic add finds.
+type AtomicSpec struct {
+	Key       string
+	Rely      *Clause
+	Guarantee *Clause
+	AddAssume *Clause
+}
+
 type WitnessBinding struct {
 	Name string
 	E    Expr
@@ -533,6 +544,7 @@ type Contract struct {
 	NoSafety   bool // skip implicit panic obligations (stated in evidence)
 	Wraps      bool // signed +,- wrap exactly (no overflow obligations)
 	Pure       bool // (assumed contracts) deterministic function of the argument values
+	Atomics    []*AtomicSpec
 	Witness    map[string][]WitnessBinding // ensures label -> witnesses for its existentials
 	Loops      []*LoopSpec
 	Ghost      []Param // ghost parameters (lemma-style universally quantified inputs)
@@ -576,20 +588,30 @@ type IfaceSpec struct {
 type SpecDB struct {
 	Contracts map[string]*Contract // full key
 	Preds     map[string]*Pred
+	UFs       map[string]*UFDecl
 	Lemmas    map[string]*Lemma
 	Ifaces    map[string]*IfaceSpec
 	Files     []string
 	Assumed   []string // names of assumed/trusted contracts, for the assumption scan
 }
 
-var clauseKeywords = map[string]bool{"pred": true, "func": true, "lemma": true, "interface": true, "property": true, "mode": true,
+// UFDecl is an uninterpreted specification function.
+type UFDecl struct {
+	Name   string
+	Params []Param
+	Ret    string
+	Pkg    string
+}
+
+var clauseKeywords = map[string]bool{"uf": true, "pred": true,"func": true, "lemma": true, "interface": true, "property": true, "mode": true,
 	"requires": true, "ensures": true, "modifies": true, "inline": true, "trusted": true, "loop": true, "invariant": true,
-	"decreases": true, "maypanic": true, "forall": false, "ghost": true, "method": true, "assume": true, "vars": true, "nosafety": true, "pure": true, "witness": true, "wraps": true}
+	"decreases": true, "maypanic": true, "forall": false, "ghost": true, "method": true, "assume": true, "vars": true, "nosafety": true, "pure": true, "witness": true, "wraps": true,
+	"atomic": true, "rely": true, "guarantee": true, "addassume": true}
 
 // LoadSpecs reads every verif_contracts.go under the repo plus the assumed
 // contracts under /verif/contracts/assumed.
 func LoadSpecs(repo string, pkgDirs []string, assumedDir string) (*SpecDB, error) {
-	db := &SpecDB{Contracts: map[string]*Contract{}, Preds: map[string]*Pred{}, Lemmas: map[string]*Lemma{}, Ifaces: map[string]*IfaceSpec{}}
+	db := &SpecDB{Contracts: map[string]*Contract{}, Preds: map[string]*Pred{}, Lemmas: map[string]*Lemma{}, Ifaces: map[string]*IfaceSpec{}, UFs: map[string]*UFDecl{}}
 	for _, d := range pkgDirs {
 		dir := filepath.Join(repo, d)
 		matches, _ := filepath.Glob(filepath.Join(dir, "verif_contracts*.go"))
@@ -690,6 +712,21 @@ func (db *SpecDB) loadFile(path, pkg string, assumed bool) error {
 	}
 	for _, rc := range raws {
 		switch rc.kw {
+		case "uf":
+			// uf name(params) rettype : an uninterpreted specification function; slice
+			// parameters are passed by content (backing array, offset, length)
+			op := strings.Index(rc.rest, "(")
+			cp := strings.LastIndex(rc.rest, ")")
+			if op < 0 || cp < op {
+				return fmt.Errorf("%s:%d: bad uf declaration", path, rc.line)
+			}
+			params, err := parseParams(rc.rest[op+1 : cp])
+			if err != nil {
+				return fmt.Errorf("%s:%d: %v", path, rc.line, err)
+			}
+			name := strings.TrimSpace(rc.rest[:op])
+			db.UFs[name] = &UFDecl{Name: name, Params: params, Ret: strings.TrimSpace(rc.rest[cp+1:]), Pkg: pkg}
+			curC, curL, curLoop, curI, curM = nil, nil, nil, nil, nil
 		case "pred":
 			// name(params) = expr
 			eq := strings.Index(rc.rest, "=")
@@ -880,6 +917,30 @@ func (db *SpecDB) loadFile(path, pkg string, assumed bool) error {
 		case "wraps":
 			if curC != nil {
 				curC.Wraps = true
+			}
+		case "atomic":
+			// atomic <Struct>.<field>: the cell is shared; reads obey "rely", writes by
+			// this function must establish "guarantee" (cur = value replaced, new = value written)
+			if curC == nil {
+				return fmt.Errorf("%s:%d: atomic outside func", path, rc.line)
+			}
+			curC.Atomics = append(curC.Atomics, &AtomicSpec{Key: strings.TrimSpace(rc.rest)})
+		case "rely", "guarantee", "addassume":
+			if curC == nil || len(curC.Atomics) == 0 {
+				return fmt.Errorf("%s:%d: %s outside atomic", path, rc.line, rc.kw)
+			}
+			cl, err := mkClause(rc)
+			if err != nil {
+				return err
+			}
+			as := curC.Atomics[len(curC.Atomics)-1]
+			switch rc.kw {
+			case "rely":
+				as.Rely = &cl
+			case "guarantee":
+				as.Guarantee = &cl
+			default:
+				as.AddAssume = &cl
 			}
 		case "witness":
 			// witness <label> L = expr, R = expr
